@@ -235,50 +235,33 @@ Proof.
       subst; try (apply IH; [reflexivity|exact Hf]); cbn in Hf; discriminate.
 Qed.
 
-Definition mx_no_empty_var (env : list mx_level) : Prop :=
-  Forall (fun l => match mx_lv_vars l with Some d => mx_assoc [] d = None | None => True end) env.
-
-(* `$$`: unless a custom variable is named "", ResolveMacro("") never reports a recursive macro *)
-Lemma mx_lookup_empty_norec env :
-  mx_no_empty_var env -> snd (mx_resolve_macro env []) = false.
-Proof.
-  unfold mx_resolve_macro. cbn [mx_split_any rev].
-  induction 1 as [|l env Hl _ IH]; [reflexivity|].
-  cbn [mx_lookup_levels mx_beq negb andb mx_join].
-  destruct (mx_lv_short l); cbn [negb andb]; [|exact IH].
-  destruct (mx_lv_vars l) as [d|]; [rewrite Hl|];
-    (destruct (mx_assoc [] (mx_lv_macros l)); [reflexivity|]);
-    (destruct (mx_walk (MxDict (mx_lv_fields l)) [[]]); [reflexivity|exact IH]).
-Qed.
-
+(* `$$` is a literal dollar sign, in every environment *)
 Lemma mx_dollar rec env esc :
-  mx_no_empty_var env ->
   mx_resolve1 rec env esc [] = MxOk (if esc then MxStr (mx_escape_shell_arg [mx_ch_dollar]) else MxStr [mx_ch_dollar]) false.
-Proof.
-  intros H. pose proof (mx_lookup_empty_norec env H) as Hs. unfold mx_resolve1.
-  destruct (mx_resolve_macro env []) as [[found0 v0] recur]. cbn in Hs. subst recur. cbn. destruct esc; reflexivity.
-Qed.
+Proof. unfold mx_resolve1. cbn. destruct esc; reflexivity. Qed.
 
-(* ... and with such a variable `$$` throws: the witness of the recorded finding *)
+(* the code before the fix 4feca083: with a custom variable named "" the replacement "$" was handed to the
+   recursive resolver (which throws "Closing $ not found") *)
 Definition mx_dollar_witness_env : list mx_level :=
   [ {| mx_lv_name := [104]; mx_lv_short := true; mx_lv_vars := Some [([], MxStr [120])]; mx_lv_macros := []; mx_lv_fields := [] |} ].
 
-Lemma mx_dollar_refuted :
-  mx_irm mx_fuel 2 mx_dollar_witness_env false [mx_ch_dollar; mx_ch_dollar] = MxThrow MxErrUnclosed /\
-  mx_resolve_arguments mx_dollar_witness_env (MxArr [MxStr [97]; MxStr [mx_ch_dollar; mx_ch_dollar]]) None = MxCmdThrow MxErrUnclosed.
-Proof. split; vm_compute; reflexivity. Qed.
+Lemma mx_dollar_pre_fix_refuted rec :
+  mx_resolve1_pre_fix rec mx_dollar_witness_env false [] =
+  match rec [mx_ch_dollar] with MxThrow e => MxThrow e | MxOk v m => MxOk v m end /\
+  mx_irm 1 3 mx_dollar_witness_env false [mx_ch_dollar] = MxThrow MxErrUnclosed.
+Proof. split; [|reflexivity]. unfold mx_resolve1_pre_fix. cbn. destruct (rec [mx_ch_dollar]); reflexivity. Qed.
 
 Lemma mx_dollar_string f level env pre post :
-  (level <= 15)%nat -> mx_no_empty_var env -> ~ In mx_ch_dollar pre -> ~ In mx_ch_dollar post ->
+  (level <= 15)%nat -> ~ In mx_ch_dollar pre -> ~ In mx_ch_dollar post ->
   mx_irm (S f) level env false (pre ++ mx_ch_dollar :: mx_ch_dollar :: post) = MxOk (MxStr (pre ++ mx_ch_dollar :: post)) false.
 Proof.
-  intros Hl He Hp Hq. destruct (list_eq_dec N.eq_dec (pre ++ post) []) as [E|E].
+  intros Hl Hp Hq. destruct (list_eq_dec N.eq_dec (pre ++ post) []) as [E|E].
   - apply app_eq_nil in E as [-> ->]. change ([] ++ [mx_ch_dollar; mx_ch_dollar]) with (mx_ch_dollar :: [] ++ [mx_ch_dollar]).
-    rewrite mx_irm_sole by (auto; intros []). apply mx_dollar. exact He.
+    rewrite mx_irm_sole by (auto; intros []). apply mx_dollar.
   - change (mx_ch_dollar :: mx_ch_dollar :: post) with (mx_ch_dollar :: [] ++ mx_ch_dollar :: post).
     rewrite (mx_irm_template f level env false pre [] post Hl Hp (fun x => x) Hq E [mx_ch_dollar] false).
     + reflexivity.
-    + apply (mx_dollar _ env false He).
+    + apply (mx_dollar _ env false).
 Qed.
 
 (* ------------------------------------------------------------------ termination *)
@@ -292,8 +275,9 @@ Proof. intros H. induction l as [|v l IH]; cbn; [reflexivity|]. rewrite H, IH. r
 Lemma mx_resolve1_ext rec1 rec2 env esc name :
   (forall s, rec1 s = rec2 s) -> mx_resolve1 rec1 env esc name = mx_resolve1 rec2 env esc name.
 Proof.
-  intros H. unfold mx_resolve1. destruct (mx_resolve_macro env name) as [[f0 v0] rc].
-  destruct rc; [|reflexivity]. destruct (if mx_beq name [] then MxStr [mx_ch_dollar] else v0); try reflexivity.
+  intros H. unfold mx_resolve1, mx_resolve1_with.
+  destruct (if mx_beq name [] then _ else _) as [[f0 v0] rc].
+  destruct rc; [|reflexivity]. destruct v0; try reflexivity.
   - rewrite H. reflexivity.
   - rewrite (mx_resolve_elems_ext rec1 rec2) by exact H. reflexivity.
 Qed.
@@ -320,9 +304,10 @@ Qed.
 Lemma mx_resolve1_nofuel rec env esc name :
   (forall s, rec s <> MxThrow MxErrFuel) -> mx_resolve1 rec env esc name <> MxThrow MxErrFuel.
 Proof.
-  intros H. unfold mx_resolve1. destruct (mx_resolve_macro env name) as [[f0 v0] rc].
-  destruct rc; [|discriminate].
-  destruct (if mx_beq name [] then MxStr [mx_ch_dollar] else v0); try discriminate.
+  intros H. unfold mx_resolve1, mx_resolve1_with.
+  destruct (if mx_beq name [] then _ else _) as [[f0 v0] rc].
+  destruct rc; [|destruct esc; discriminate].
+  destruct v0; try (destruct esc; discriminate).
   - destruct (rec s) eqn:Hr; [discriminate|]. intros X; inv X. apply (H _ Hr).
   - destruct (mx_resolve_elems rec l) as [[? ?]|e] eqn:He; [discriminate|].
     intros X; inv X. apply (mx_resolve_elems_nofuel rec l _ H He). reflexivity.
@@ -378,15 +363,16 @@ Qed.
 Lemma mx_resolve1_missing rec env name :
   name <> [] -> fst (fst (mx_resolve_macro env name)) = false -> mx_resolve1 rec env false name = MxOk MxEmpty true.
 Proof.
-  intros Hn H. unfold mx_resolve1. rewrite (mx_resolve_macro_notfound env name H).
-  destruct name; [contradiction|]. reflexivity.
+  intros Hn H. unfold mx_resolve1. destruct name; [contradiction|]. cbn [mx_beq].
+  rewrite (mx_resolve_macro_notfound env _ H). reflexivity.
 Qed.
 
 Lemma mx_resolve1_found_str env name v recur :
   name <> [] -> mx_resolve_macro env name = (true, MxStr v, recur) -> (recur = true -> ~ In mx_ch_dollar v) ->
   mx_resolve1 (mx_irm 19 3 env false) env false name = MxOk (MxStr v) false.
 Proof.
-  intros Hn H Hd. unfold mx_resolve1. rewrite H. destruct name; [contradiction|]. cbn [mx_beq negb].
+  intros Hn H Hd. unfold mx_resolve1. destruct name; [contradiction|]. cbn [mx_beq]. rewrite H.
+  unfold mx_resolve1_with. cbn [negb].
   destruct recur; [|reflexivity]. change 19%nat with (S 18). rewrite mx_irm_nodollar by (auto; lia). reflexivity.
 Qed.
 
@@ -620,3 +606,132 @@ Lemma mx_output_fold output :
   (fst (fold_left mx_parse_line (mx_split_any [13; 10] output []) ([], [])),
    mx_trim (snd (fold_left mx_parse_line (mx_split_any [13; 10] output []) ([], [])))).
 Proof. unfold mx_parse_check_output. destruct (fold_left _ _ _). reflexivity. Qed.
+
+(* ------------------------------------------------------------------ more than 16 arguments *)
+
+(* With pairwise distinct `order` values the outcome of sorting is determined: EVERY sorted permutation of
+   the collected arguments - whatever algorithm std::sort uses, stable or not - is mx_sort's result. *)
+Lemma mx_nodup_order_inj (l : list mx_carg) a b :
+  NoDup (List.map mx_ca_order l) -> In a l -> In b l -> mx_ca_order a = mx_ca_order b -> a = b.
+Proof.
+  induction l as [|c l IH]; intros Hn Ha Hb He; [contradiction|]. cbn in Hn. apply NoDup_cons_iff in Hn as [Hc Hn].
+  destruct Ha as [->|Ha], Hb as [->|Hb]; auto.
+  - exfalso. apply Hc. rewrite He. apply in_map. exact Hb.
+  - exfalso. apply Hc. rewrite <- He. apply in_map. exact Ha.
+Qed.
+
+Lemma mx_sorted_perm_unique (l1 l2 : list mx_carg) :
+  NoDup (List.map mx_ca_order l1) -> Permutation l1 l2 ->
+  StronglySorted mx_ord_le l1 -> StronglySorted mx_ord_le l2 -> l1 = l2.
+Proof.
+  revert l2. induction l1 as [|a t1 IH]; intros l2 Hn Hp H1 H2.
+  - apply Permutation_nil in Hp. subst. reflexivity.
+  - destruct l2 as [|b t2]; [apply Permutation_sym, Permutation_nil in Hp; discriminate|].
+    apply StronglySorted_inv in H1 as [Hs1 Hf1]. apply StronglySorted_inv in H2 as [Hs2 Hf2].
+    assert (a = b) as ->.
+    { rewrite Forall_forall in Hf1, Hf2.
+      assert (In a (b :: t2)) as Ha by (apply (Permutation_in _ Hp); left; reflexivity).
+      assert (In b (a :: t1)) as Hb by (apply (Permutation_in _ (Permutation_sym Hp)); left; reflexivity).
+      destruct Ha as [Ha|Ha]; [auto|]. destruct Hb as [Hb|Hb]; [auto|].
+      apply (mx_nodup_order_inj (a :: t1)); [exact Hn|left; reflexivity|right; exact Hb|].
+      specialize (Hf1 _ Hb). specialize (Hf2 _ Ha). unfold mx_ord_le in *. lia. }
+    f_equal. apply IH.
+    + cbn in Hn. apply NoDup_cons_iff in Hn as [_ Hn]. exact Hn.
+    + apply Permutation_cons_inv in Hp. exact Hp.
+    + exact Hs1.
+    + exact Hs2.
+Qed.
+
+Lemma mx_sort_unique (l l' : list mx_carg) :
+  NoDup (List.map mx_ca_order l) -> Permutation l' l -> StronglySorted mx_ord_le l' -> l' = mx_sort l.
+Proof.
+  intros Hn Hp Hs. apply mx_sorted_perm_unique; [| |exact Hs|apply mx_sort_sorted].
+  - apply (Permutation_NoDup (l := List.map mx_ca_order l)); [|exact Hn]. apply Permutation_map, Permutation_sym, Hp.
+  - rewrite Hp. apply Permutation_sym, mx_sort_perm.
+Qed.
+
+(* ------------------------------------------------------------------ SplitPerfdata *)
+
+Lemma mx_pd_scan_label l rest lab val :
+  ~ In mx_ch_eq l ->
+  mx_pd_scan (l ++ mx_ch_eq :: rest) false lab val = mx_pd_scan rest true (rev l ++ lab) [].
+Proof.
+  revert lab. induction l as [|c l IH]; intros lab H; cbn [app mx_pd_scan rev].
+  - rewrite N.eqb_refl. reflexivity.
+  - destruct (N.eqb_spec c mx_ch_eq) as [->|_]; [exfalso; apply H; left; reflexivity|].
+    rewrite IH by (intros X; apply H; right; exact X). rewrite <- app_assoc. reflexivity.
+Qed.
+
+Lemma mx_pd_scan_value_end v lab val :
+  ~ In mx_ch_space v -> mx_pd_scan v true lab val = [(rev lab, rev val ++ v)].
+Proof.
+  revert val. induction v as [|c v IH]; intros val H; cbn [mx_pd_scan].
+  - rewrite app_nil_r. reflexivity.
+  - destruct (N.eqb_spec c mx_ch_space) as [->|_]; [exfalso; apply H; left; reflexivity|].
+    rewrite IH by (intros X; apply H; right; exact X). cbn [rev]. rewrite <- app_assoc. reflexivity.
+Qed.
+
+Lemma mx_pd_scan_value v rest lab val :
+  ~ In mx_ch_space v ->
+  mx_pd_scan (v ++ mx_ch_space :: rest) true lab val = (rev lab, rev val ++ v) :: mx_pd_scan rest false [] [].
+Proof.
+  revert val. induction v as [|c v IH]; intros val H; cbn [app mx_pd_scan].
+  - rewrite N.eqb_refl, app_nil_r. reflexivity.
+  - destruct (N.eqb_spec c mx_ch_space) as [->|_]; [exfalso; apply H; left; reflexivity|].
+    rewrite IH by (intros X; apply H; right; exact X). cbn [rev]. rewrite <- app_assoc. reflexivity.
+Qed.
+
+(* a label that needs no special treatment: no '=', blank, quote or ':' in it, not starting with white space *)
+Definition mx_pd_plain_label (l : mx_bytes) : Prop :=
+  ~ In mx_ch_eq l /\ ~ In mx_ch_space l /\ ~ In mx_ch_squote l /\ ~ In mx_ch_colon l /\
+  match l with c :: _ => mx_is_space c = false | [] => True end.
+
+Definition mx_pd_item (p : mx_bytes * mx_bytes) : mx_bytes := fst p ++ [mx_ch_eq] ++ snd p.
+
+Lemma mx_rfind_cc_none l i : ~ In mx_ch_colon l -> mx_rfind_cc l i None = None.
+Proof.
+  revert i. induction l as [|c l IH]; intros i H; [reflexivity|]. cbn [mx_rfind_cc].
+  assert ((c =? mx_ch_colon) = false) as Hc by (apply N.eqb_neq; intros ->; apply H; left; reflexivity).
+  rewrite Hc. cbn [andb]. replace (match l with [] => None | _ :: _ => None end) with (@None nat) by (destruct l; reflexivity).
+  apply IH. intros X; apply H; right; exact X.
+Qed.
+
+Lemma mx_pd_unquote_plain l : ~ In mx_ch_squote l -> mx_pd_unquote l = l.
+Proof.
+  intros H. unfold mx_pd_unquote. destruct l as [|c l]; [reflexivity|]. cbn [hd].
+  assert ((c =? mx_ch_squote) = false) as Hc by (apply N.eqb_neq; intros ->; apply H; left; reflexivity).
+  rewrite Hc, andb_false_r. reflexivity.
+Qed.
+
+Lemma mx_pd_labels_plain pairs :
+  Forall (fun p => mx_pd_plain_label (fst p)) pairs ->
+  mx_pd_labels pairs [] = List.map mx_pd_item pairs.
+Proof.
+  induction 1 as [|[l v] pairs (He & Hs & Hq & Hc & Hh) _ IH]; [reflexivity|]. cbn [mx_pd_labels fst snd] in *.
+  assert (mx_trim_left l = l) as -> by (destruct l; [reflexivity|cbn; rewrite Hh; reflexivity]).
+  rewrite mx_pd_unquote_plain by exact Hq. rewrite mx_rfind_cc_none by exact Hc.
+  apply mx_mem_false in Hs. rewrite Hs. rewrite IH. reflexivity.
+Qed.
+
+Lemma mx_pd_scan_items pairs :
+  Forall (fun p => ~ In mx_ch_eq (fst p) /\ ~ In mx_ch_space (snd p)) pairs ->
+  mx_pd_scan (mx_join [mx_ch_space] (List.map mx_pd_item pairs)) false [] [] = pairs.
+Proof.
+  induction 1 as [|[l v] pairs [Hl Hv] _ IH]; [reflexivity|].
+  cbn [List.map mx_join]. destruct pairs as [|q pairs].
+  - cbn [List.map]. unfold mx_pd_item. cbn [fst snd app]. rewrite mx_pd_scan_label by exact Hl.
+    rewrite mx_pd_scan_value_end by exact Hv. rewrite app_nil_r, rev_involutive. reflexivity.
+  - cbn [List.map] in *. unfold mx_pd_item at 1. cbn [fst snd]. rewrite <- !app_assoc. cbn [app].
+    rewrite mx_pd_scan_label by exact Hl. rewrite mx_pd_scan_value by exact Hv.
+    rewrite app_nil_r, rev_involutive. cbn [rev app]. f_equal. exact IH.
+Qed.
+
+(* "l1=v1 l2=v2 ..." with plain labels and blank-free values is split into exactly its items, unchanged *)
+Lemma mx_split_perfdata_items pairs :
+  Forall (fun p => mx_pd_plain_label (fst p) /\ ~ In mx_ch_space (snd p)) pairs ->
+  mx_split_perfdata (mx_join [mx_ch_space] (List.map mx_pd_item pairs)) = List.map mx_pd_item pairs.
+Proof.
+  intros H. unfold mx_split_perfdata. rewrite mx_pd_scan_items.
+  - apply mx_pd_labels_plain. eapply Forall_impl; [|exact H]. intros p [Hp _]. exact Hp.
+  - eapply Forall_impl; [|exact H]. intros p [(He & _) Hv]. split; assumption.
+Qed.
